@@ -237,6 +237,7 @@ func (es *EventSystem) eventLoop() {
 			es.indexMux.Unlock()
 			close(f.installed)
 		case f := <-es.uninstall:
+			verifSchedPoint("eventLoop:uninstall")
 			es.indexMux.Lock()
 			delete(es.index[f.typ], f.id)
 
@@ -297,6 +298,7 @@ func (es *EventSystem) consumeEvents() {
 			}
 
 			// gracefully handle lagging subscribers
+			verifSchedPoint("consumeEvents:before-send")
 			t := time.NewTimer(time.Second)
 			select {
 			case <-t.C:
